@@ -49,11 +49,21 @@ def check(ctx, run):
     to = prog.functions.get(BASE + ".to")
     o = Obj(prog.classes and "pfhedge.instruments.primary.brownian.BrownianStock", "stock", {"dtype": Sym("dtype0"), "device": Sym("device0")})
     o.attrs["__buf_spot"] = W.tensor("stock.spot", "buffer")
-    res = [r for r in interp.explore(to, [], dict(dtype=Sym("dtype1")), self_obj=o) if not r["raises"]]
+    allres = interp.explore(to, [], dict(dtype=Sym("dtype1")), self_obj=o)
+    res = [r for r in allres if not r["raises"]]
+    # the rejection may be an `if ...: raise` guard in to() itself or a branch (here or in a helper) whose other side raises: a raising path
+    # decided on is_floating_point, reached before any state was changed
+    rejecting = [r for r in allres if r["raises"] and any("is_floating_point" in str(c_) for c_, _, _ in r["cond"])]
+    rejects_clean = bool(rejecting) and all(not any(e["kind"] in ("obj_setattr", "register_buffer") for e in r["events"]) for r in rejecting)
     problems = []
+    if rejecting and not rejects_clean:
+        problems.append("state is changed before the dtype is validated")
     for r in res:
         ev = [e for e in r["events"] if e["kind"] in ("guard", "obj_setattr", "register_buffer")]
         kinds = [e["kind"] for e in ev]
+        if rejects_clean and any("is_floating_point" in str(c_) for c_, _, _ in r["cond"]):
+            kinds = ["guard"] + kinds
+            ev = [dict(kind="guard", cond="is_floating_point (decided on this path; the other side raises)")] + ev
         if "guard" not in kinds or not any("is_floating_point" in str(e["cond"]) for e in ev if e["kind"] == "guard"):
             problems.append("no rejection of non-floating dtypes")
         elif kinds.index("guard") > min([k for k, x in enumerate(kinds) if x != "guard"] or [99]):
